@@ -131,6 +131,38 @@ func (a *abstractor) concreteToConst(tok string) string {
 	return tok
 }
 
+// expandLets inlines the (let ((x v) ...) body) sharing that solvers print in model values.
+func expandLets(s string) string {
+	s = strings.TrimSpace(s)
+	args := splitSexpArgs(s)
+	if len(args) == 0 {
+		return s
+	}
+	if args[0] == "let" && len(args) == 3 {
+		body := expandLets(args[2])
+		binds := splitSexpArgs("(b " + strings.TrimSuffix(strings.TrimPrefix(strings.TrimSpace(args[1]), "("), ")") + ")")
+		for i := len(binds) - 1; i >= 1; i-- {
+			kv := splitSexpArgs(binds[i])
+			if len(kv) != 2 {
+				continue
+			}
+			val := expandLets(kv[1])
+			re := regexp.MustCompile(`(^|[\s()])` + regexp.QuoteMeta(kv[0]) + `($|[\s()])`)
+			for re.MatchString(body) {
+				body = re.ReplaceAllString(body, "${1}"+strings.ReplaceAll(val, "$", "$$")+"${2}")
+			}
+		}
+		return body
+	}
+	// expand inside sub-terms
+	for i, a := range args {
+		if strings.HasPrefix(a, "(") {
+			args[i] = expandLets(a)
+		}
+	}
+	return "(" + strings.Join(args, " ") + ")"
+}
+
 var concTokRe = regexp.MustCompile(`ba\d+:[0-9a-f]*|str:[0-9a-f]*`)
 
 func (a *abstractor) rewriteConcrete(v string) string {
